@@ -162,6 +162,68 @@ def marshalSeq : List (List RawTP) → Res (List Bytes)
     | .ok bs, .ok rest => .ok (bs :: rest)
     | _, _ => .panic
 
+/-! ## Memory: which array a result lives in
+
+The slice model above has no notion of *which* array a slice points into, so it cannot say that a
+result the caller keeps is not overwritten by a later call. The model below adds that: the heap is
+the list of byte arrays allocated so far (address = index), a slice header is an address and a
+length (`cap` = the array's length), `append` writes in place when the array has room and allocates
+a new array otherwise. `Marshal` starts from the nil slice (`var b []byte`), so everything it writes
+lies in arrays it allocated itself — `C24.marshal_results_survive_later_calls`. -/
+
+abbrev Heap := List Bytes
+
+structure Hdr where
+  arr : Nat
+  len : Nat
+  deriving DecidableEq, Repr
+
+/-- the bytes a (possibly nil) slice header shows in heap `h`. -/
+def hView (h : Heap) : Option Hdr → Bytes
+  | none => []
+  | some s => (h.getD s.arr []).take s.len
+
+/-- overwrite `a[off : off+len(bs)]`. -/
+def writeAt (a : Bytes) (off : Nat) (bs : Bytes) : Bytes := a.take off ++ bs ++ a.drop (off + bs.length)
+
+/-- Go `append(s, bs...)` on the heap. -/
+def hAppend (grow : Nat → Nat) (h : Heap) (s : Option Hdr) (bs : Bytes) : Heap × Option Hdr :=
+  match s with
+  | none =>
+    if bs = [] then (h, none)
+    else (h ++ [bs ++ List.replicate (grow bs.length) 0], some ⟨h.length, bs.length⟩)
+  | some s =>
+    let a := h.getD s.arr []
+    if s.len + bs.length ≤ a.length then (h.set s.arr (writeAt a s.len bs), some ⟨s.arr, s.len + bs.length⟩)
+    else (h ++ [a.take s.len ++ bs ++ List.replicate (grow (s.len + bs.length)) 0], some ⟨h.length, s.len + bs.length⟩)
+
+/-- `TransportParameters.Marshal` on the heap, continuing from slice `s`. -/
+def hMarshalFrom (grow : Nat → Nat) : Heap → Option Hdr → List RawTP → Res (Heap × Option Hdr)
+  | h, s, [] => .ok (h, s)
+  | h, s, tp :: rest =>
+    match vAppend tp.id, vAppend tp.value.length with
+    | .ok ib, .ok lb =>
+      let (h1, s1) := hAppend grow h s ib
+      let (h2, s2) := hAppend grow h1 s1 lb
+      let (h3, s3) := hAppend grow h2 s2 tp.value
+      hMarshalFrom grow h3 s3 rest
+    | _, _ => .panic
+
+/-- `Marshal()`: from the nil slice. -/
+def hMarshal (grow : Nat → Nat) (h : Heap) (tps : List RawTP) : Res (Heap × Option Hdr) :=
+  hMarshalFrom grow h none tps
+
+/-- several lists marshalled one after the other in one memory; the caller keeps every header. -/
+def hMarshalSeq (grow : Nat → Nat) : Heap → List (List RawTP) → Res (Heap × List (Option Hdr))
+  | h, [] => .ok (h, [])
+  | h, l :: ls =>
+    match hMarshal grow h l with
+    | .panic => .panic
+    | .ok (h1, r) =>
+      match hMarshalSeq grow h1 ls with
+      | .panic => .panic
+      | .ok (hN, rs) => .ok (hN, r :: rs)
+
 /-- independent parser of the RFC 9000 §18 grammar: a sequence of (varint id, varint length, value). -/
 def parseTPsFuel : Nat → Bytes → Option (List RawTP)
   | _, [] => some []
